@@ -631,10 +631,14 @@ def run(tier, seed, replay=None):
         for i in range(n):
             for j in range(n):
                 stats["q_entries"] += 1
+                if not math.isfinite(o["Q"][r][i][j]):
+                    bad = bad or ("q-differs-from-model", f"row {r}: q()[{i}][{j}] = {o['Q'][r][i][j]!r}", False)
+                    continue
                 x = Fraction(o["Q"][r][i][j])
                 if abs(x - Qm[i][j]) > Fraction(1e-9) * abs(Qm[i][j]) + Fraction(1e-13) * qscale and not bad:
                     bad = ("q-differs-from-model", f"row {r}: q()[{i}][{j}] = {float(x)!r}, model {float(Qm[i][j])!r}", False)
-            if abs(Fraction(o["pi"][r][i]) - pim[i]) > Fraction(1e-12) * abs(pim[i]) and not bad:
+            if not math.isfinite(o["pi"][r][i]) or \
+                    abs(Fraction(o["pi"][r][i]) - pim[i]) > Fraction(1e-12) * abs(pim[i]) and not bad:
                 bad = ("frequencies-differ-from-model",
                        f"row {r}: frequencies[{i}] = {o['pi'][r][i]!r}, model {float(pim[i])!r}", False)
         refs = {}
@@ -664,6 +668,10 @@ def run(tier, seed, replay=None):
             for i in range(n):
                 for j in range(n):
                     lo, hi = Rm[i][j]
+                    if not math.isfinite(o["P"][r][b][k][i][j]):
+                        if not (bad and bad[2]):
+                            bad = ("p_t-not-expQt", f"row {r}: p_t({t!r})[{i}][{j}] = {o['P'][r][b][k][i][j]!r}", True)
+                        continue
                     x = Fraction(o["P"][r][b][k][i][j])
                     err = max(lo - x, x - hi, 0)
                     stats["max_p_err"] = max(stats["max_p_err"], float(err))
@@ -711,8 +719,11 @@ def run(tier, seed, replay=None):
         fs = search()
         for f in fs:
             rep.violation(*f)
+        # a model/implementation disagreement without a failing input of its own is reported unless the
+        # property itself was found violated on the same model class (which then explains it)
+        explained = {f[0].split(":")[2] for f in fs if not f[0].startswith("C04:raises:")}
         for k, w, rp, found_input in collapse(corr_bad):
-            if found_input or not fs:
+            if found_input or k.split(":")[2] not in explained:
                 rep.violation(k, w, rp, found_input)
     rep.timings["compare"] = round(time.time() - t0, 2)
     rep.rule = ("substitution models built from JSON: JC69, GeneralJC69(n), HKY, GTR, general symmetric / "
